@@ -111,6 +111,12 @@ theorem Inv_step {s : State} (hi : Inv s) (op : Op) (hv : op.valid = true) : Inv
     cases rmClient s.conf.clients n <;> exact hi
   | search => exact hi
   | stats => exact hi
+  | edit n id =>
+    simp only [step]
+    cases h1 : editClient s.conf.clients n id with
+    | none => exact hi
+    | some r => cases r <;> exact hi
+  | runtime a h o => exact hi
   | tick => exact hi
   | restart =>
     simp only [step, flush]
@@ -156,7 +162,8 @@ theorem zips_nil_rmClient {cs cs' : List PClient} {n : Bytes}
   · rw [if_neg ha] at hs; cases hs
 
 /-- No operation of a history takes the repair away or configures a zoned address. -/
-theorem ZoneOK_step {s : State} (hz : ZoneOK s.conf) (op : Op) : ZoneOK (step s op).1.conf := by
+theorem ZoneOK_step {s : State} (hz : ZoneOK s.conf) (op : Op) (hv : op.valid = true) :
+    ZoneOK (step s op).1.conf := by
   cases op with
   | query q => simp only [step, processQuery_eq]; exact hz
   | flush => exact hz
@@ -180,6 +187,41 @@ theorem ZoneOK_step {s : State} (hz : ZoneOK s.conf) (op : Op) : ZoneOK (step s 
       · exact Or.inr (zips_nil_rmClient hz hs)
   | search => exact hz
   | stats => exact hz
+  | edit n id =>
+    simp only [step]
+    cases h1 : editClient s.conf.clients n id with
+    | none => exact hz
+    | some r =>
+      cases r with
+      | none => exact hz
+      | some cs =>
+        rcases hz with hz | hz
+        · exact Or.inl hz
+        · right
+          unfold editClient at h1
+          cases hf : s.conf.clients.find? (·.name == n) with
+          | none => rw [hf] at h1; cases h1
+          | some p0 =>
+            rw [hf] at h1
+            simp only at h1
+            by_cases hcl : clashes (s.conf.clients.filter (·.name != n)) (p0.addID id) = true
+            · rw [if_pos hcl] at h1; cases h1
+            · rw [if_neg hcl] at h1
+              simp only [Option.some.injEq] at h1
+              subst h1
+              intro p hp
+              rcases List.mem_append.mp hp with hp | hp
+              · exact hz p (List.mem_filter.mp hp).1
+              · simp only [List.mem_singleton] at hp
+                subst hp
+                have h0 := hz p0 (List.mem_of_find?_eq_some hf)
+                cases id with
+                | zip a z => simp [Op.valid] at hv
+                | ip a => simpa [PClient.addID] using h0
+                | net a b => simpa [PClient.addID] using h0
+                | mac m => simpa [PClient.addID] using h0
+                | cid c => simpa [PClient.addID] using h0
+  | runtime a h o => exact hz
   | tick => exact hz
   | restart => exact hz
   | rotate =>
@@ -363,6 +405,160 @@ theorem specDisk_model (sh : Shadow) (sc : List (Key × Nat)) (sd : List (Bytes 
   simp only [specDisk, grown_self, grown_of_subset hc, grown_of_subset hd]
   rfl
 
+/-! ## The full finder and the reported record -/
+
+theorem isBlocked_rule_ip {acc : Access} {id : QID} {a : Bytes} (h : (isBlocked acc id).2 = .ip a) :
+    id = .ip a := by
+  cases id with
+  | cid c => simp [isBlocked] at h
+  | ip b =>
+    simp only [isBlocked] at h
+    split at h
+    · simp at h; rw [h]
+    · split at h
+      · simp at h
+      · simp at h; rw [h]
+
+theorem clientFull_rule (c : Conf) (rt : List RT) (id : QID) :
+    (clientFull c rt id).1.rule = (isBlocked c.access id).2 := by
+  unfold clientFull
+  cases storageFindLoose c.clients c.leases id with
+  | some p => rfl
+  | none =>
+    cases id with
+    | cid x => rfl
+    | ip a => simp only; cases rtFind rt a <;> rfl
+
+/-- An address-valued `disallowed_rule` is the text of one of the looked-up ids. -/
+theorem findFull_rule_ip {c : Conf} {rt : List RT} {ids : List QID} {i : Info} {g : Bool} {a : Bytes}
+    (h : findFull c rt ids = some (i, g)) (hr : i.rule = .ip a) : QID.ip a ∈ ids := by
+  induction ids with
+  | nil => simp [findFull] at h
+  | cons id rest ih =>
+    simp only [findFull] at h
+    have here : (clientFull c rt id).1.rule = .ip a → QID.ip a ∈ id :: rest := by
+      intro h1
+      rw [clientFull_rule] at h1
+      rw [isBlocked_rule_ip h1]
+      exact List.mem_cons_self ..
+    by_cases hart : (clientFull c rt id).2.1 = true
+    · simp only [hart, if_true] at h
+      cases hf : findFull c rt rest with
+      | some x =>
+        rw [hf] at h
+        simp only [Option.some.injEq] at h
+        subst h
+        exact List.mem_cons_of_mem _ (ih hf)
+      | none =>
+        rw [hf] at h
+        simp only [Option.some.injEq, Prod.mk.injEq] at h
+        exact here (by rw [h.1]; exact hr)
+    · simp only [hart] at h
+      simp only [Bool.false_eq_true, if_false, Option.some.injEq, Prod.mk.injEq] at h
+      exact here (by rw [h.1]; exact hr)
+
+theorem entryIDs_eq (e : Entry) : entryIDs e = idsOf e.cid e.ip := by
+  unfold entryIDs idsOf
+  by_cases h : e.cid ≠ [] <;> simp [h]
+
+theorem mem_entryIDs_ip {e : Entry} {a : Bytes} (h : QID.ip a ∈ entryIDs e) : a = e.ip := by
+  unfold entryIDs at h
+  by_cases hc : e.cid ≠ []
+  · simp [hc] at h; exact h
+  · simp [hc] at h; exact h
+
+/-- The ignore flag the full finder (with runtime records and access settings)
+hands to `ShouldLog` and to the search is the one of the reduced finder: runtime
+records and the access settings never change the decision. -/
+theorem findFull_flag (c : Conf) (rt : List RT) (cid a : Bytes) :
+    ((findFull c rt (idsOf cid a)).map (·.2) == some true) =
+      (findMultiple c.clients c.leases (idsOf cid a) == some true) := by
+  have last : ((findFull c rt [QID.ip a]).map (·.2) == some true) =
+      (findMultiple c.clients c.leases [QID.ip a] == some true) := by
+    cases h1 : storageFindLoose c.clients c.leases (.ip a) with
+    | some p => cases hp : p.ignLog <;> simp [findFull, findMultiple, clientFull, h1, hp]
+    | none => cases h2 : rtFind rt a <;> simp [findFull, findMultiple, clientFull, h1, h2]
+  unfold idsOf
+  by_cases hc : cid ≠ []
+  · rw [if_pos hc]
+    cases h0 : storageFindLoose c.clients c.leases (.cid cid) with
+    | some p => cases hp : p.ignLog <;> simp [findFull, findMultiple, clientFull, h0, hp]
+    | none =>
+      have e1 : findFull c rt [QID.cid cid, QID.ip a] =
+          (match findFull c rt [QID.ip a] with
+           | some x => some x
+           | none => some ((clientFull c rt (.cid cid)).1, false)) := by
+        have hart : (clientFull c rt (.cid cid)).2.1 = true := by simp [clientFull, h0]
+        conv => lhs; unfold findFull
+        simp only [hart, if_true]
+        cases findFull c rt [QID.ip a] <;> rfl
+      have e2 : findMultiple c.clients c.leases [QID.cid cid, QID.ip a] =
+          findMultiple c.clients c.leases [QID.ip a] := by
+        simp [findMultiple, h0]
+      rw [e1, e2, ← last]
+      cases hf : findFull c rt [QID.ip a] with
+      | some x => rfl
+      | none =>
+        exfalso
+        cases h1 : storageFindLoose c.clients c.leases (.ip a) with
+        | some p => simp [findFull, clientFull, h1] at hf
+        | none => cases h2 : rtFind rt a <;> simp [findFull, clientFull, h1, h2] at hf
+  · rw [if_neg hc]; exact last
+
+theorem mem_searchFull {s : State} {r : Reported} (h : r ∈ searchFull s) :
+    ∃ e, e ∈ s.mem ++ s.file ∧ keeps s.conf e = true ∧ r = reportFull s e := by
+  unfold searchFull at h
+  obtain ⟨e, he, rfl⟩ := List.mem_map.mp h
+  refine ⟨e, ?_, ?_, rfl⟩
+  · rcases List.mem_append.mp he with he | he
+    · exact List.mem_append_left _ (List.mem_reverse.mp (List.mem_filter.mp he).1)
+    · exact List.mem_append_right _ (List.mem_reverse.mp (List.mem_filter.mp he).1)
+  · rcases List.mem_append.mp he with he | he <;> exact (List.mem_filter.mp he).2
+
+theorem search_eq_searchFull (s : State) : search s = (searchFull s).map (·.entry) := by
+  simp [search, searchFull, List.map_map, Function.comp_def, reportFull]
+
+/-- With anonymisation on, an included `client_info` carries no unmasked address. -/
+theorem reportFull_info_masked {s : State} (hi : Inv s) {e : Entry} (he : e ∈ s.mem ++ s.file)
+    (ha : s.conf.anon = true) : infoUnmasked (reportFull s e).info = false := by
+  unfold reportFull
+  simp only
+  by_cases hinc : (canon (ipMut s.conf.anon e.ip) == e.ip) = true
+  · simp only [hinc, if_true]
+    cases hf : findFull s.conf s.runtime (entryIDs e) with
+    | none => rfl
+    | some x =>
+      obtain ⟨i, g⟩ := x
+      simp only [Option.map, infoUnmasked]
+      cases hr : i.rule with
+      | net _ _ => rfl
+      | str _ => rfl
+      | ip a =>
+        have := mem_entryIDs_ip (findFull_rule_ip hf hr)
+        subst this
+        have hm := masked_ipMut_true (hi e he)
+        rw [ha] at hinc
+        have heq : canon (ipMut true e.ip) = e.ip := by simpa using hinc
+        rw [heq] at hm
+        simp [hm]
+  · simp only [hinc]; rfl
+
+theorem specReported_model {s : State} (hi : Inv s) {r : Reported} (h : r ∈ searchFull s) :
+    specReported s.conf s.shadow r = none := by
+  obtain ⟨e, he, hk, rfl⟩ := mem_searchFull h
+  have hin : (reportFull s e).entry ∈ search s := by
+    rw [search_eq_searchFull]
+    exact List.mem_map.mpr ⟨_, h, rfl⟩
+  unfold specReported
+  rw [specFound_model hi hin]
+  simp only
+  rw [if_neg, if_neg]
+  · intro hh
+    simp only [Bool.and_eq_true] at hh
+    rw [reportFull_info_masked hi he hh.1] at hh
+    exact absurd hh.2 (by simp)
+  · simp [reportFull]
+
 /-- One step of the model always passes the monitor (run on its own stores). -/
 theorem specStep_model {s : State} (hi : Inv s) (hz : ZoneOK s.conf) (op : Op) (hv : op.valid = true) :
     specStep s.conf s.shadow op (step s op).2 = none := by
@@ -382,12 +578,18 @@ theorem specStep_model {s : State} (hi : Inv s) (hz : ZoneOK s.conf) (op : Op) (
     cases rmClient s.conf.clients n <;> rfl
   | search =>
     simp only [step, specStep]
-    exact firstSome_none (fun r hr => specFound_model hi hr)
+    exact firstSome_none (fun r hr => specReported_model hi hr)
   | stats =>
     simp only [step, specStep]
     have := specReport_model s
     unfold statsReport at this ⊢
     exact this
+  | edit n id =>
+    simp only [step]
+    cases h1 : editClient s.conf.clients n id with
+    | none => rfl
+    | some r => cases r <;> rfl
+  | runtime a h o => rfl
   | tick =>
     simp only [step, specStep, tick]
     exact specDisk_model s.shadow [] [] (by simp) (by simp)
